@@ -81,5 +81,7 @@ CONFIG = dict(
         technique='machine-checked proof in Coq 8.16 (fold invariants over association-list sums, characterisation of the literal table merge, '
                   'selection exactness under an abstract table interface) + model/implementation correspondence replay through the extracted '
                   'OCaml model + extracted specification oracles (filter-and-sum over the inputs) judging the real outputs + exhaustive '
-                  'small-scope enumeration of identity-list pairs',
+                  'small-scope enumeration of identity-list pairs + scale family (identity graphs in adversarial layouts, results with 10^3..10^4 '
+                  'files / developers / ticks) judged by fast oracles proved to imply the specification oracles + the identity table of every '
+                  'call judged by the extracted statements of C16 and an independent union-find',
     )
